@@ -534,6 +534,15 @@ class BasinProxyFeature(np.lib.mixins.NDArrayOperatorsMixin):
     def __len__(self):
         return len(self.basinmap)
 
+    def max(self, *args, **kwargs):
+        return np.nanmax(self.__array__())
+
+    def mean(self, *args, **kwargs):
+        return np.nanmean(self.__array__())
+
+    def min(self, *args, **kwargs):
+        return np.nanmin(self.__array__())
+
     @property
     def shape(self):
         # The first axis is defined by the mapping, not by the basin
